@@ -400,12 +400,23 @@ def run_floorplan(c):
             raise Violation("a legal configuration (same structure, soft reshaped, hard translated) violates %s\nnetlist: %s\nF1: %s" % (
                 bad[:6], doc_of(c), config_of(c, 1)), "legal-config-rejected:" + bad[0].split("/")[0])
         # (iii) single-clause violations
+        todo = []
         for kind, pick in c["viol"]:
+            if kind == "ratio":
+                todo += [(kind, p) for p in range(12)]  # every rectangle that can be thinned, not one of them
+            else:
+                todo.append((kind, pick))
+        seen_desc = set()
+        for kind, pick in todo:
             v = violate(c, kind, pick)
             if v is None:
-                cls.append("no-place-for-" + kind)
+                if (kind, pick) in [tuple(x) for x in c["viol"]] or kind != "ratio":
+                    cls.append("no-place-for-" + kind)
                 continue
             cfg, desc = v
+            if desc in seen_desc:
+                continue
+            seen_desc.add(desc)
             assign(model, maps, cfg)
             bad = unmet(model)
             if not bad:
